@@ -250,6 +250,32 @@ harness! {
     }
 }
 
+// the same on a concrete grid of (x, w) whose products are inexact ((x*w)/w != x for several pairs): fully concrete, so
+// CBMC only folds constants -- catches min/max taken from a recomputed mean where the symbolic version runs out of budget
+harness! {
+    #[kani::unwind(8)]
+    fn c16_td_insert_weighted_concrete_grid() {
+        let xs = [0.1f64, 0.7, 1e-3, 3.3, -2.1, 1e10];
+        let ws = [3.0f64, 0.1, 7.0, 1e-5, 49.0];
+        let mut i = 0;
+        while i < xs.len() {
+            let mut j = 0;
+            while j < ws.len() {
+                let (x, w) = (xs[i], ws[j]);
+                let mut t = TDigest::new(K0::new(10.), 5);
+                t.insert_weighted(x, w);
+                assert!(t.min() == x && t.max() == x, "C16 min()/max() are exactly the inserted value");
+                {
+                    let inner = t.inner.borrow();
+                    assert!(inner.backlog.len() == 1 && inner.backlog[0].count == w && inner.backlog[0].sum == x * w && inner.n_samples == 1, "C16 every positive weight is accounted");
+                }
+                j += 1;
+            }
+            i += 1;
+        }
+    }
+}
+
 // public wrapper on an empty digest: NaN / 0 for every q and x (complete, loop-free)
 harness! {
     fn c15_td_empty_wrapper() {
